@@ -81,6 +81,18 @@ func scenariosFor(prop string) []scn {
 		// the DLQ is still opening (unresponsive) while a record is already being rejected, then the force stop arrives
 		both(flowParams{Sources: 1, Records: 1, Batch: 1, Dests: 1, AckMenu: okNack, GateDLQOpen: true, Stop: "force"}, 3, 4)
 		both(flowParams{Sources: 1, Records: 2, Batch: 1, Dests: 2, AckMenu: okNack, GateDLQOpen: true, Stop: "force"}, 2, 3)
+	case "C09":
+		shapes := []string{"ok", "wrongpos", "extra", "none", "reorder", "dup", "err", "nack"}
+		both(flowParams{Sources: 1, Records: 2, Batch: 2, Dests: 1, AckMenu: shapes, Stop: "force"}, 2, 3)
+		both(flowParams{Sources: 1, Records: 2, Batch: 1, Dests: 2, AckMenu: shapes, Stop: "force"}, 1, 2)
+		both(flowParams{Sources: 1, Records: 2, Batch: 1, Dests: 1, AckMenu: onlyOK, DLQMenu: shapes, Procs: []procParam{{ID: "pp", Kinds: []string{"e", "e"}}}, Stop: "force"}, 2, 3)
+		for _, kinds := range [][]string{{"short", "p", "p"}, {"p", "nil", "p"}, {"p", "posrewrite", "p"}, {"extra", "p", "p"}, {"p", "p", "short"}, {"2", "short", "p"}, {"emptypos", "p", "p"}} {
+			both(flowParams{Sources: 1, Records: 3, Batch: 3, Dests: 1, AckMenu: okNack, Procs: []procParam{{ID: "pp", Kinds: kinds}}, Stop: "force"}, 1, 2)
+			both(flowParams{Sources: 1, Records: 3, Batch: 3, Dests: 1, AckMenu: onlyOK, NoMatch: []int{1}, Procs: []procParam{{ID: "pp", Kinds: kinds, Cond: "match"}}, Stop: "force"}, 1, 2)
+		}
+		both(flowParams{Sources: 1, Records: 3, Batch: 3, Dests: 1, AckMenu: onlyOK, SrcPositions: "dup", Stop: "force"}, 1, 2)
+		both(flowParams{Sources: 1, Records: 3, Batch: 3, Dests: 1, AckMenu: okNack, SrcPositions: "empty", Stop: "force"}, 1, 2)
+		both(flowParams{Sources: 1, Records: 2, Batch: 1, Dests: 1, AckMenu: onlyOK, ReadMenu: []string{"ok", "err", "fatal"}, Stop: "force"}, 2, 3)
 	case "C06":
 		both(flowParams{Sources: 1, Records: 3, Batch: 1, Dests: 1, AckMenu: onlyOK, Stop: "stopwait"}, 2, 4)
 		both(flowParams{Sources: 1, Records: 2, Batch: 1, Dests: 2, AckMenu: onlyOK, Stop: "stopwait"}, 2, 3)
